@@ -11,6 +11,10 @@
     family D32 after the repairs; each confirmed by the race detector in the harness), `C20_all_fields_disciplined_partial` proves the rest.
     `C20_disciplined_no_conflict` ties the per-field predicate to the pairwise one the harness queries.
 
+    The table also has the REGISTRY ENTRIES (`Tool`, `Prompt`, `Resource`, `ResourceTemplate`, the managers' records;
+    `Mcp.Entries`): accesses through entry pointers with every mutex held at that point, value copies as reads of all
+    fields.  `C20_registry_entries_read_only`: no request path writes an entry; `C20_entry_store_on_request_path_rejected`:
+    a lazily filled `Tool.InputSchema` is rejected.
   * Part C (the regenerated table `Mcp.Gen.rcGlobals` of EVERY package-level variable of the library — root package
     and internal/… —, `Mcp.Globals`): state shared by all clients and servers of the process.  `C20_all_globals_disciplined`
     (kernel-decided over the complete table): every variable is immutable-and-never-reassigned, a sync primitive, an
@@ -29,6 +33,13 @@
     exactly the non-compliant entries.  `C20_send_apis_keep_nothing` names the send APIs that must be in the table and
     compliant; `C20_retained_argument_rejected` shows the predicate rejects a params map queued for a writer goroutine.
 
+  * Part E (the regenerated table `Mcp.Gen.rcSharedLocals`, `Mcp.GoClosures`): local variables a function shares with
+    the goroutines it starts itself.  `C20_shared_locals_disciplined`: every variable written by a goroutine literal
+    has at most one writing goroutine instance or one common mutex around every write (today NO goroutine literal of
+    the library writes a variable of its enclosing function at all: the table is empty, `C20_go_literals_examined` pins
+    the functions whose literals were examined); `C20_unguarded_shared_local_rejected`: an error slice appended to by
+    three pipe-closing goroutines is rejected.
+
   Partial: lock tracking is lexical and per function (no alias analysis, no inter-procedural propagation), memory
   reached through a pointer stored in a field is outside the table, and the Go memory model itself is trusted,
   not modelled instruction by instruction; `HB` here is a subset of Go's happens-before.
@@ -36,9 +47,12 @@
 import Mcp.Model.Lockset
 import Mcp.Model.Globals
 import Mcp.Model.ApiArgs
+import Mcp.Model.Entries
+import Mcp.Model.GoClosures
 import Mcp.Gen.FieldLocks
 import Mcp.Gen.Globals
 import Mcp.Gen.ApiArgs
+import Mcp.Gen.GoClosures
 namespace Mcp.Props.C20
 open Mcp.Lockset Mcp.Str
 
@@ -518,6 +532,51 @@ theorem C20_table_covers :
     (Mcp.Gen.rcSharedFields.any fun f => (live f).all (fun a => a.kind != .write) && (f.accs.any fun a => a.init)) = true := by
   decide +kernel
 
+/-! ### registry entries (rows of the same table: `Mcp.Entries`) -/
+
+open Mcp.Entries in
+/-- **Registered entries are read-only on the request paths**: every field of `Tool`, `Prompt`, `Resource`,
+    `ResourceTemplate` and of the managers' records that is touched after construction — by the listings, the getters
+    (`*tool` copies read all fields), calls, registration — is never written there (kernel-decided over the table; the
+    rows are part of `rcSharedFields`, so `C20_all_fields_disciplined_partial` / `C20_undisciplined_witness` cover them
+    too: a store through an entry pointer on a request path shows up as an undisciplined field). -/
+theorem C20_registry_entries_read_only :
+    ∀ f ∈ Mcp.Gen.rcSharedFields, isEntry f = true → readOnlyAfterInit f = true := by
+  have h : (Mcp.Gen.rcSharedFields.all fun f => !isEntry f || readOnlyAfterInit f) = true := by decide +kernel
+  intro f hf he
+  have := List.all_eq_true.1 h f hf
+  simpa [he] using this
+
+open Mcp.Entries in
+/-- The entry rows exist and see the value copies: `Tool.InputSchema` (like every `Tool` field) is read by the listing
+    and by the getters of the three servers; the manager's lock is recorded where it is held. -/
+theorem C20_registry_entries_covered :
+    (Mcp.Gen.rcSharedFields.any fun f => f.type == t!"Tool" && f.field == t!"InputSchema" &&
+      (live f).any (fun a => a.fn == t!"toolManager.handleListTools" && a.kind == .read) &&
+      (live f).any (fun a => a.fn == t!"Server.GetTools" && a.kind == .read) &&
+      (live f).any (fun a => a.fn == t!"SSEServer.GetTool" && a.kind == .read) &&
+      (live f).any (fun a => a.fn == t!"StdioServer.GetTools" && a.kind == .read)) = true ∧
+    (Mcp.Gen.rcSharedFields.any fun f => f.type == t!"registeredTool" && f.field == t!"Tool" &&
+      (live f).any (fun a => a.fn == t!"toolManager.getTools" && a.held == [(t!"toolManager.mu", false)])) = true ∧
+    (Mcp.Gen.rcSharedFields.any fun f => f.type == t!"Prompt" && isEntry f) = true ∧
+    (Mcp.Gen.rcSharedFields.any fun f => f.type == t!"Resource" && isEntry f) = true ∧
+    (Mcp.Gen.rcSharedFields.any fun f => f.type == t!"ResourceTemplate" && isEntry f) = true := by
+  decide +kernel
+
+open Mcp.Entries in
+/-- **A store through an entry pointer on a request path is rejected**: the default input schema written through the
+    shared `*Tool` by the first tools/list with no lock (and the table predicts the races of that store with another
+    listing and with a getter), or under the manager's READ lock; under the write lock with every reader under the read
+    lock it is accepted — not while one getter copies the tool outside the lock. -/
+theorem C20_entry_store_on_request_path_rejected :
+    disciplined schemaFilledByFirstList = false ∧ readOnlyAfterInit schemaFilledByFirstList = false ∧
+    predicted [schemaFilledByFirstList] t!"Tool" t!"InputSchema" t!"toolManager.handleListTools" t!"toolManager.handleListTools" = true ∧
+    predicted [schemaFilledByFirstList] t!"Tool" t!"InputSchema" t!"Server.GetTools" t!"toolManager.handleListTools" = true ∧
+    disciplined schemaFilledUnderRLock = false ∧
+    disciplined schemaFilledUnderLock = true ∧
+    disciplined schemaFilledUnderLockOneReaderOutside = false := by
+  decide
+
 /-! ## Part C — package-level variables (shared by every client and server of the process) -/
 
 open Mcp.Globals in
@@ -722,6 +781,48 @@ open Mcp.ApiArgs in
 example : ¬ ArgsNotRetained (reviewedRetention ++ knownRetention) (sendQueuesMap :: Mcp.Gen.rcApiArgs) := by
   intro h
   have := h sendQueuesMap (List.mem_cons_self ..)
+  revert this
+  decide
+
+/-! ## Part E — locals shared with the goroutines a function starts -/
+
+open Mcp.GoClosures in
+/-- **No local variable is written by several goroutines of its function without a mutex**, decided by the kernel over
+    the complete regenerated table of the variables that goroutine literals (`go func(){…}()`, `go f()` for a bound
+    literal) write in their enclosing function: at most one writing goroutine instance, or one common mutex held
+    exclusively at every write. -/
+theorem C20_shared_locals_disciplined : AllSharedLocalsDisciplined Mcp.Gen.rcSharedLocals := by
+  have h : (Mcp.Gen.rcSharedLocals.all lDisciplined) = true := by decide +kernel
+  exact fun l hl => List.all_eq_true.1 h l hl
+
+/-- The search behind that table is not empty: goroutine literals were found and examined in these functions (the
+    legacy SSE server's stream handler, the stdio transports, the client transports' stream starters). -/
+theorem C20_go_literals_examined :
+    (Mcp.Gen.rcGoFunctions.any fun p => p.1 == t!"SSEServer.handleSSE" && decide (p.2 ≥ 1)) = true ∧
+    (Mcp.Gen.rcGoFunctions.any fun p => p.1 == t!"stdioTransport.processInputStream" && decide (p.2 ≥ 1)) = true ∧
+    (Mcp.Gen.rcGoFunctions.any fun p => p.1 == t!"streamableHTTPClientTransport.establishGetSSE" && decide (p.2 ≥ 1)) = true ∧
+    (Mcp.Gen.rcGoFunctions.any fun p => p.1 == t!"sseClientTransport.start" && decide (p.2 ≥ 1)) = true := by
+  decide +kernel
+
+open Mcp.GoClosures in
+/-- **The predicate rejects what it must**: the failures of three pipe-closing goroutines appended to the function's
+    `errs` slice with no lock (and the table predicts the race of the literal with itself), a counter guarded in one
+    place only, a write under a read lock; it accepts the append under a mutex and a single writing goroutine. -/
+theorem C20_unguarded_shared_local_rejected :
+    lDisciplined errsAppendedByClosers = false ∧
+    predicted [asField errsAppendedByClosers] t!"stdioClientTransport.close" t!"errs"
+      t!"stdioClientTransport.close.go#1" t!"stdioClientTransport.close.go#1" = true ∧
+    lDisciplined errsAppendedUnderMutex = true ∧
+    lDisciplined singleWriter = true ∧
+    lDisciplined halfGuardedTotal = false ∧
+    lDisciplined underReadLock = false := by
+  decide
+
+open Mcp.GoClosures in
+/-- Non-vacuity of the table obligation. -/
+example : ¬ AllSharedLocalsDisciplined (errsAppendedByClosers :: Mcp.Gen.rcSharedLocals) := by
+  intro h
+  have := h errsAppendedByClosers (List.mem_cons_self ..)
   revert this
   decide
 
